@@ -153,7 +153,7 @@ pub fn filter_file_pattern<'a>(
   let file_content = read_file(path)?;
   let grep = lang.ast_grep(&file_content);
   let do_match = |ast_grep: AstGrep, matcher: &'a Pattern<SgLang>| {
-    let fixed = matcher.fixed_string();
+    let fixed = matcher.required_text();
     // the literal is only a sound file prefilter when every pattern token must appear with its text:
     // ast/relaxed may skip unnamed pattern tokens and signature ignores text altogether
     let text_required = matches!(
